@@ -161,7 +161,7 @@ func c10() *core.Check {
 		if tier == "thorough" {
 			nl = 300000
 		}
-		mixes = append(mixes, Mix{Gen: "longtok", N: nl}, Mix{Gen: "qualified"}, Mix{Gen: "gluelit"}, Mix{Gen: "encatk"})
+		mixes = append(mixes, Mix{Gen: "longtok", N: nl}, Mix{Gen: "qualified"}, Mix{Gen: "gluelit"}, Mix{Gen: "encatk"}, Mix{Gen: "dialect"}, Mix{Gen: "prose"})
 		return append(us, planMix(sqlDomain, mixes)...)
 	}
 	return &core.Check{
@@ -269,6 +269,9 @@ var htmlCaseSites = []string{
 	"<html xmlns=\"http://www.w3.org/1999/xhtml\">", "<svg xmlns=\"http://www.w3.org/2000/svg\">", "<math xmlns=\"http://www.w3.org/1998/Math/MathML\">", "<svg xmlns:xlink=\"http://www.w3.org/1999/xlink\">",
 	"<?xml version=\"1.0\" encoding=\"utf-8\"?><note>hi</note>", "<?xml-stylesheet type=\"text/xsl\" href=\"a.xsl\"?>", "<meta name=viewport content=1>", "<meta charset=utf-8>", "<meta http-equiv=refresh content=5>",
 	"<!DOCTYPE html PUBLIC \"-//W3C//DTD XHTML 1.0 Strict//EN\" \"http://www.w3.org/TR/xhtml1/DTD/xhtml1-strict.dtd\">", "<link rel=stylesheet href=a.css>", "<base href=/ target=_blank>", "<style type=text/css>", "<script type=text/javascript src=a.js>",
+	"<link rel=\"shortcut icon\" href=\"/favicon.ico\">", "<link rel=\"alternate stylesheet\" href=a.css>", "<link rel=\"icon apple-touch-icon\" href=a.png>", "<meta name=\"robots\" content=\"noindex, nofollow\">", "<a rel=\"noopener noreferrer\" href=x>",
+	"<iframe sandbox=\"allow-scripts allow-forms\">", "<input type=\"hidden\" name=a>", "<script type=\"application/ld+json\">", "<meta http-equiv=\"Content-Type\" content=\"text/html; charset=UTF-8\">", "<base target=\"_blank\">",
+	"<embed type=\"application/x-shockwave-flash\">", "<object classid=\"clsid:D27CDB6E\">", "<style media=\"screen and (min-width:1px)\">", "<link rel=preload as=font>", "<meta property=\"og:title\" content=x>",
 	"<iframe sandbox src=about:blank>", "<object type=application/pdf data=a.pdf>", "<embed type=image/svg+xml src=a.svg>", "<a href=mailto:a@b.c>", "<a href=tel:123>", "<form method=post action=/login>", "<img src=data:image/gif;base64,R0lGOD>",
 	"<a xmlns:x=y x:href=javascript:x>", "<svg xmlns:q=x><a q:href=data:x>", "<a x:href=java>", "<set attributename=fill to=java>", "<p><plaintext><a href=java>", "<plaintext><svt>", "<meta content=\"0;url=java\">",
 	"</z a=`x`>", "<z x=\"<svt>\">", "</q><svt>", "<j k=`>", "<zz y='<xss>'>",
@@ -299,7 +302,7 @@ func c11() *core.Check {
 		if tier == "thorough" {
 			mixes = []Mix{{Gen: "corpus"}, {Gen: "bytes"}, {Gen: "trunc"}, {Gen: "atoms", Dict: "htmlfull", K: 3}, {Gen: "seq", Dict: "htmlfull", N: 2500000}, {Gen: "mut", Dict: "htmlfull", N: 2000000}, {Gen: "novel", Dict: "htmlfull", N: 1000000}, {Gen: "g04", N: 2500000}}
 		}
-		mixes = append(mixes, Mix{Gen: "attrvals"}, Mix{Gen: "nsattrs"})
+		mixes = append(mixes, Mix{Gen: "attrvals"}, Mix{Gen: "nsattrs"}, Mix{Gen: "elements"})
 		return append(us, planMix(htmlDomain, mixes)...)
 	}
 	hasCData := func(s string) bool {
